@@ -151,10 +151,14 @@ def run(chk: Check):
     todo = [(p, p.pool, k) for p in plans(thorough)]
     if not thorough:       # the 4-sibling collisions (two duplicate groups generating the same counted name)
         todo += [(p, ["A L", "A-L", "A"], 4) for p in plans(False) if p.label in ("akai files", "roland samples", "cdda titles")]
+    # names that differ only by a sanitised character at their edge (printed alike unless counted): every sequence of <= 3, all replayed
+    todo += [(p, ["A", "A*", "(A)", "?A"], 3) for p in plans(thorough) if p.label in ("roland samples", "roland volumes", "cdda titles")]
     for plan, pool, k in todo:
         res = chk.run_model(naming.model(pool, k, plan.is_dir, plan.kind, no_combine=plan.nocomb),
                             label=f"design: {plan.label}, <= {k} of {len(plan.pool)} names", timeout_s=3000)
         picked = naming.pick(res.cases, budget, chk.seed + 5)
+        if k == 3 and len(pool) == 4:        # the edge-character pool: everything
+            picked = res.cases
         if k == 4 and len(pool) <= 5:        # targeted pool: every 4-sibling sequence with two duplicate groups, unstrided
             picked = [c for c in res.cases if len(c["names"]) == 4 and naming.collision_rich([naming.S(n) for n in c["names"]])]
         for i, c in enumerate(picked):
